@@ -467,6 +467,41 @@ class PolyLower(object):
         return out
 
 
+def clear_denominators(D, max_rounds=12):
+    """Multiply the polynomial D by the polynomial bases of its inverse atoms (integer negative powers of
+    ("p", P) atoms) and expand, repeatedly: D != 0  <=>  result != 0 wherever those denominators are
+    non-zero (which the atom definitions already require).  Raises TooBig."""
+    for _ in range(max_rounds):
+        worst = {}
+        frac = set()
+        for mono in D:
+            for k, ex in mono:
+                if k[0] == "p":
+                    if ex.denominator != 1:
+                        frac.add(k)
+                    elif ex < 0:
+                        worst[k] = max(worst.get(k, 0), -ex.numerator)
+        worst = {k: v for k, v in worst.items() if k not in frac}
+        if not worst:
+            return D
+        # pick the atom that does not occur inside another candidate's polynomial first (outermost)
+        k = sorted(worst, key=lambda a: -len(str(a)))[0]
+        e = worst[k]
+        base = dict(k[1])
+        out = {}
+        for mono, c in D.items():
+            rest = tuple((a, x) for a, x in mono if a != k)
+            ex = dict(mono).get(k, Fraction(0)) + e
+            term = {rest: c}
+            if ex > 0:
+                term = pmul(term, ppow_frac(base, Fraction(ex)))
+            out = padd(out, term)
+        D = out
+        if len(D) > MAX_TERMS:
+            raise TooBig()
+    return D
+
+
 def normalized_difference(got, want):
     """canonical polynomial of got - want (raises TooBig)"""
     N = Normalizer()
